@@ -16,6 +16,23 @@ COG_PARAMS = {
     14: dict(geometry=GEOM), 16: dict(geometry=[2, 3]), 17: dict(geometry=GEOM), 18: dict(geometry=GEOM),
     19: dict(geometry=GEOM, u0=(-4.0, -0.3)), 20: dict(geometry=GEOM), 21: {},
 }
+
+
+def heat_flux(fields, D):
+    """derived quantities for the conduction term of the documented energy equation:
+    aT4 = a T^4 and F = -(c lam0 rho^alpha T^beta / 3) d(aT4)/dr, with the radiation
+    constants and the mean-free-path law as free symbols (`c_light`, `a_rad`,
+    `lam0_`, `alpha_`, `beta_`); theorems instantiate them with the solver's own."""
+    import collections
+    from ..sym import S, E
+    rho, T = fields['density'], fields['temperature']
+    out = collections.OrderedDict()
+    aT4 = S('a_rad') * T ** 4
+    out['aT4'] = aT4
+    out['heat_flux'] = -(S('c_light') * S('lam0_') * rho ** S('alpha_') * T ** S('beta_') / 3) * D(aT4, 'r')
+    return out
+
+
 THERMO = ['density', 'velocity', 'temperature', 'pressure', 'specific_internal_energy']
 
 for _n in COG:
@@ -25,7 +42,7 @@ for _n in COG:
                 corr=dict(cls='exactpack.solvers.cog.cog%d:Cog%d' % (n, n), r=(0.2, 3.0), t=(0.05, 0.6),
                           params=COG_PARAMS.get(n)))
         def _b():
-            return trace_solver('Cog%d' % n, 'exactpack.solvers.cog.cog%d:Cog%d' % (n, n))
+            return trace_solver('Cog%d' % n, 'exactpack.solvers.cog.cog%d:Cog%d' % (n, n), derived=heat_flux)
     _mk(_n)
 
 
